@@ -14,10 +14,17 @@ func (e *Engine) structuralCheck(name string) *FuncResult {
 	if f, ok := structuralChecks[name]; ok {
 		return f(e)
 	}
+	for _, mkf := range structuralFactories {
+		if f := mkf(name); f != nil {
+			return f(e)
+		}
+	}
 	return &FuncResult{Key: "structural:" + name, Err: "unknown structural check " + name}
 }
 
 var structuralChecks = map[string]func(e *Engine) *FuncResult{}
+
+var structuralFactories []func(name string) func(e *Engine) *FuncResult
 
 // tryReplay turns a solver model into a concrete input and runs the real code on it (per-family
 // builders, see replay_*.go). Returns nil when no builder applies.
